@@ -29,7 +29,7 @@ def op_alphabet():
         ops.append(("rename", a, b))
     for a, b in itertools.combinations(F.PATHS, 2):
         ops.append(("swap", a, b))
-    ops += [("exclude", ()), ("exclude", ("d",)), ("exclude", ("*.js",)), ("other_version",), ("drop", "a.py"), ("drop", "d/c.py"),
+    ops += [("exclude", ()), ("exclude", ("d",)), ("exclude", ("*.js",)), ("other_version",), ("other_version", "absent"), ("other_version", "null"), ("drop", "a.py"), ("drop", "d/c.py"),
             ("damage", "truncate"), ("damage", "garbage"), ("remove_cache",)]
     return ops
 
@@ -84,7 +84,13 @@ def apply_op(root, files, excludes, op):
                 except ValueError:
                     return excludes
                 if kind == "other_version":
-                    doc["version"] = "0.0.1"
+                    how = op[1] if len(op) > 1 else "other"
+                    if how == "absent":
+                        doc.pop("version", None)          # a legacy report without a version
+                    elif how == "null":
+                        doc["version"] = None
+                    else:
+                        doc["version"] = "0.0.1"
                     for e in doc["codebase"]["files"].values():      # a different version may measure differently
                         e["loc"] = 99
                         for m in e["measurements"]:
